@@ -1,6 +1,7 @@
 """Anchor tables shared by the rules (DESIGN Appendix C) and small helpers."""
 from engine import graph
 from engine.graph import Program, Super, fmt, strip
+from engine.facts import norm_path
 
 CM = "counter_marker::CounterMarker::"
 WCM = "weak::weak_counter_marker::WeakCounterMarker::"
@@ -212,6 +213,19 @@ def loop_heads_applying(S, pred, exclude=("ui", "u")):
     return heads
 
 
+def applied_to_every_element(S, pred, exclude=("ui", "u")):
+    """Is a node satisfying pred executed for every element of a list walk - as the body of a loop (loop_heads_applying) or as
+    the closure of for_each/fold over an un-adapted `.iter()` (iteration_context)?"""
+    if loop_heads_applying(S, pred, exclude):
+        return True
+    for n in S.nodes:
+        if pred(n):
+            ic = iteration_context(S, n)
+            if ic is not None and ic["every"] and ic["whole"] and ic["item_ok"]:
+                return True
+    return False
+
+
 def unwind_must_pass(S, U, pred, avoid_labels=()):
     """Every path that starts with the unwind edge of node U and reaches the root's resume passes a node
     satisfying pred. Returns (ok, n_exits_checked). Vacuous (no unwind edge) returns (True, 0)."""
@@ -343,6 +357,65 @@ def _is_anchor_fn(P, f):
     return False
 
 
+def scope_guard_constructors(P, f):
+    """If f is the Drop::drop of a crate type that is only ever used as a scope guard - every value is built into a local that is
+    then just dropped at scope end (or handed to mem::forget), never moved into a call, an aggregate or the return value - return
+    the functions that build it: the guard's destructor runs as part of *their* scope, wherever the type is declared."""
+    cache = P.__dict__.setdefault("_sgc", {})
+    if f.id in cache:
+        return cache[f.id]
+    res = []
+    io = f.impl_of or {}
+    if io.get("trait") and io["trait"].endswith("ops::Drop") and f.npath.endswith("::drop"):
+        head = type_head(io.get("self_ty", ""))
+        builders = []
+        guard = True
+        for g in P.fns.values():
+            locs = set()
+            for b in g.blocks:
+                for st in b["stmts"]:
+                    if st["k"] == "assign" and st["rv"]["k"] == "agg" and st["rv"].get("agg") == "adt" and type_head(norm_path(st["rv"].get("adt", ""))) == head:
+                        if st["place"]["p"] or st["place"]["l"] == 0:
+                            guard = False     # built into a field or into the return place: a value, not a scope guard
+                        else:
+                            locs.add(st["place"]["l"])
+            if not locs:
+                continue
+            builders.append(g)
+            # plain moves into another local (`_t = move _guard; forget(move _t)`) are the same value
+            grew = True
+            while grew:
+                grew = False
+                for b in g.blocks:
+                    for st in b["stmts"]:
+                        if st["k"] == "assign" and st["rv"]["k"] == "use" and not st["place"]["p"] and st["place"]["l"] != 0 and st["place"]["l"] not in locs:
+                            o = st["rv"]["op"]
+                            if o["k"] in ("copy", "move") and o["place"]["l"] in locs and not o["place"]["p"]:
+                                locs.add(st["place"]["l"])
+                                grew = True
+            for b in g.blocks:
+                for st in b["stmts"]:
+                    if st["k"] != "assign":
+                        continue
+                    if st["rv"]["k"] == "use" and not st["place"]["p"] and st["place"]["l"] in locs:
+                        continue
+                    rv = st["rv"]
+                    ops = [rv["op"]] if rv["k"] in ("use", "cast") else (rv["ops"] if rv["k"] == "agg" else [])
+                    for o in ops:
+                        if o["k"] in ("copy", "move") and o["place"]["l"] in locs and not o["place"]["p"]:
+                            guard = False
+                t = b["term"]
+                if t["k"] == "call":
+                    for a in t["args"]:
+                        if a["k"] in ("copy", "move") and a["place"]["l"] in locs and not a["place"]["p"]:
+                            if norm_path(t["callee"].get("path", "")) != "std::mem::forget":
+                                guard = False
+        if guard and builders:
+            res = builders
+    cache[f.id] = res
+    return res
+
+
 def lift_owner(P, f, depth=0, seen=None):
     """Owners of a call site: the enclosing top-level function, or - when that is a private non-anchor helper
     (an extract-function refactor) - the functions that call the helper, transitively."""
@@ -351,6 +424,12 @@ def lift_owner(P, f, depth=0, seen=None):
     if r.id in seen or depth > 6:
         return {r.npath}
     seen.add(r.id)
+    cons = scope_guard_constructors(P, r)
+    if cons:
+        out = set()
+        for cf in cons:
+            out |= lift_owner(P, cf, depth + 1, seen)
+        return out
     if _is_anchor_fn(P, r):
         return {r.npath}
     callers = P.callers(r.id)
